@@ -57,6 +57,34 @@ CHECKS = {
             "arcs, circles, disks and annuli are checked to lie on exact circles. Sampling, not proof.",
             "Trusted: vp/ref/bspl.py, vp/ref/geo.py, numpy. Derivatives are compared only where they are continuous.",
             "DESIGN.md section 2, C07"),
+    "C10": ("exploration",
+            "Hypothesis-generated linear systems / index sets in arbitrary order / faces / boundary data + exhaustive "
+            "enumeration of slice_indices on small shapes; oracle = dense algebraic definition and an independent "
+            "face-index / Greville-interpolation reference",
+            "RestrictedLinearSystem (dense/CSR/CSC/COO, unsorted and degenerate index sets, elim_rows, scalar/array "
+            "values) is checked through the completed solution: prescribed values at every constrained dof and zero "
+            "residual in every kept equation, plus mutual consistency of restrict/extend/restrict_matrix/complete. "
+            "compute_dirichlet_bc(s)/combine_bcs/boundary_dofs/slice_indices, multipatch Dirichlet data and "
+            "compute_initial_condition_01 are compared with an independent reference (face dof sets exactly once, "
+            "blocked numbering, interpolation of g(G(xi)) at the face Greville points). Sampling plus one exhaustive "
+            "sub-domain; not a proof.",
+            "Trusted: numpy dense algebra, vp/ref/bspl.py, vp/ref/c10_ref.py.",
+            "DESIGN.md section 2, C10"),
+    "C12": ("exploration",
+            "finite exhaustive check of rooted-tree order conditions in exact rationals for the 12 shipped tableaux + "
+            "Hypothesis-generated problems/tableaux/driver arguments against exact dense stage equations and a recording "
+            "wrapper around the step functions",
+            "Order conditions (all rooted trees up to the documented order, main and embedded weights) are checked in "
+            "exact rational arithmetic for every shipped tableau; dirk_step/rosenbrock_step are compared with the stage "
+            "equations solved by dense algebra (tolerance derived from the hard-coded Newton stopping rule) for "
+            "generated SPD mass matrices (None/dense/sparse), linear and monotone nonlinear right-hand sides, tau over 3 "
+            "decades, shipped and random user tableaux; constant-step and adaptive drivers are replayed (time grid, "
+            "accepted steps pass the scaled error test, step factors within [0.2,5]); newton returns only converged "
+            "points or raises. Sampling except for the tableau part.",
+            "Trusted: vp/ref/c12_rk.py (rooted trees, dense reference steps), numpy. Documented main orders of the "
+            "Rosenbrock tables are taken from the method names (the source only states err_order). Open known finding: "
+            "dirk34 tableau (matched by the exact residual fingerprint).",
+            "DESIGN.md section 2, C12"),
     "C16": ("exploration",
             "Hypothesis-generated operands (dense/CSR/CSC/LinearOperator, rectangular, mixed dtypes/layouts) and arguments; "
             "oracle = explicit dense matrices built with numpy.kron / numpy.block / numpy.linalg.solve",
